@@ -81,7 +81,7 @@ func libEffects(x *ssa.Call) ([]string, bool) {
 	case "(*bytes.Buffer).Bytes", "(*bytes.Buffer).Len", "(*bytes.Buffer).String", "sort.Search":
 		return nil, true
 	}
-	if strings.HasSuffix(name, "slices.Insert") {
+	if strings.HasSuffix(name, "slices.Insert") || strings.HasSuffix(name, "slices.Grow") || strings.HasSuffix(name, "slices.Delete") {
 		if sl, ok := x.Call.Args[0].Type().Underlying().(*types.Slice); ok {
 			return []string{elemHeapPrefix(sl.Elem())}, true
 		}
@@ -213,6 +213,65 @@ func (f *FuncVC) libCall(st *State, x *ssa.Call, args []*Val) (*Val, bool) {
 			}
 			return f.freshTyped(st, resTy, "binwrite"), true
 		}
+	}
+	if strings.HasSuffix(name, "slices.Grow") && len(args) == 2 && args[0].K == KSlice {
+		// slices.Grow(s, n): same elements and length, capacity >= len+n; the
+		// result is s itself if the capacity suffices, else a fresh copy
+		f.usedAssumed["slices.Grow: result has the same length and elements, cap >= len+n, and is either s or freshly allocated; panics for n < 0"] = true
+		sv, n := args[0], args[1]
+		f.oblige(st, "make", f.srcAt(x.Pos()), and(cmp(">=", n.T, "0"), cmp("<=", arith("+", sv.Fs[2].T, n.T), maxElems)))
+		et := sv.Ty.Underlying().(*types.Slice).Elem()
+		fits := f.sc.define("gfits", "Bool", cmp("<=", arith("+", sv.Fs[2].T, n.T), sv.Fs[3].T))
+		newRef := f.alloc(st)
+		newCap := f.sc.fresh("gcap")
+		f.sc.declare(newCap, "Int")
+		f.fact(st, and(cmp(">=", newCap, arith("+", sv.Fs[2].T, n.T)), cmp("<=", newCap, maxElems)))
+		names, sorts, _ := elemLeaves(et)
+		for i, hn := range names {
+			hs := arraySort(2, sorts[i])
+			h := f.heap(st, hn, hs)
+			cp := f.sc.fresh("garr")
+			f.sc.declare(cp, arraySort(1, sorts[i]))
+			q := f.sc.fresh("k")
+			f.fact(st, fmt.Sprintf("(forall ((%s Int)) (! (=> (and (<= 0 %s) (< %s %s)) (= (select %s %s) (select (select %s %s) (+ %s %s)))) :pattern ((select %s %s))))", q, q, q, sv.Fs[2].T, cp, q, h, sv.Fs[0].T, sv.Fs[1].T, q, cp, q))
+			f.setHeap(st, hn, hs, ite(fits, h, store(h, newRef, cp)))
+		}
+		r := &Val{K: KSlice, Ty: x.Type(), Fs: []*Val{
+			vInt(f.sc.define("gref", "Int", ite(fits, sv.Fs[0].T, newRef)), nil),
+			vInt(f.sc.define("goff", "Int", ite(fits, sv.Fs[1].T, "0")), nil),
+			vInt(sv.Fs[2].T, nil),
+			vInt(f.sc.define("gcap", "Int", ite(fits, sv.Fs[3].T, newCap)), nil)}}
+		r.Fs[2].Lo = big.NewInt(0)
+		return r, true
+	}
+	if strings.HasSuffix(name, "slices.Delete") && len(args) == 3 && args[0].K == KSlice {
+		// slices.Delete(s, i, j): removes s[i:j] in place
+		f.usedAssumed["slices.Delete: removes s[i:j] in place (elements after j move down; the vacated tail is unspecified); panics unless 0 <= i <= j <= len(s)"] = true
+		sv, i, j := args[0], args[1], args[2]
+		f.oblige(st, "slice", f.srcAt(x.Pos()), and(cmp("<=", "0", i.T), cmp("<=", i.T, j.T), cmp("<=", j.T, sv.Fs[2].T)))
+		et := sv.Ty.Underlying().(*types.Slice).Elem()
+		d := f.sc.define("dcount", "Int", arith("-", j.T, i.T))
+		if f.con != nil && f.con.HasMod {
+			f.frameCheck(st, &PtrInfo{Heap: elemHeapPrefix(et), Base: []string{sv.Fs[0].T, sv.Fs[1].T}})
+		}
+		names, sorts, _ := elemLeaves(et)
+		for k, hn := range names {
+			hs := arraySort(2, sorts[k])
+			h := f.heap(st, hn, hs)
+			old := sel(h, sv.Fs[0].T)
+			fr := f.sc.fresh("darr")
+			f.sc.declare(fr, arraySort(1, sorts[k]))
+			q := f.sc.fresh("k")
+			off := sv.Fs[1].T
+			// absolute index q: below off+i unchanged; [off+i, off+len-d) shifted; beyond off+len unchanged
+			f.fact(st, fmt.Sprintf("(forall ((%s Int)) (! (and (=> (or (< %s (+ %s %s)) (>= %s (+ %s %s))) (= (select %s %s) (select %s %s))) (=> (and (<= (+ %s %s) %s) (< %s (- (+ %s %s) %s))) (= (select %s %s) (select %s (+ %s %s))))) :pattern ((select %s %s))))",
+				q, q, off, i.T, q, off, sv.Fs[2].T, fr, q, old, q,
+				off, i.T, q, q, off, sv.Fs[2].T, d, fr, q, old, q, d, fr, q))
+			f.setHeap(st, hn, hs, store(h, sv.Fs[0].T, fr))
+		}
+		r := &Val{K: KSlice, Ty: x.Type(), Fs: []*Val{vInt(sv.Fs[0].T, nil), vInt(sv.Fs[1].T, nil), vInt(f.sc.define("dlen", "Int", arith("-", sv.Fs[2].T, d)), nil), vInt(sv.Fs[3].T, nil)}}
+		r.Fs[2].Lo = big.NewInt(0)
+		return r, true
 	}
 	if strings.HasSuffix(name, "slices.Insert") && len(args) >= 2 && args[0].K == KSlice {
 		f.usedAssumed["slices.Insert: returns a slice of length len(s)+len(values) (contents not modelled); panics if the index is out of range"] = true
